@@ -319,7 +319,7 @@ def build(R):
     if R.prove(FAM):
         link_c18(R)
     if not R.quick:
-        R.coqchk(FAM, ["DvFib.PfxLogProofs", "DvFib.PfxLogLive", "DvFib.ConstFacts", "DvFib.DvFibProofs", "DvFib.DvDaemonProofs"])
+        R.coqchk(FAM, ["DvFib.PfxLogProofs", "DvFib.PfxLogLive", "DvFib.ConstFacts", "DvFib.DvFibProofs", "DvFib.DvDaemonProofs", "DvFib.ExecutorProofs"])
     ok, runner, log = vlib.extract_build(FAM)
     if not ok:
         R.proof_problems.append("extraction/OCaml build of the DvFib model failed"); R.log(log[-1500:]); return None
